@@ -59,7 +59,7 @@ func errorsCase(idx int, schemaText, instText []byte, root string, reg strfmt.Re
 	ev["o1"], ev["o2"] = "", ""
 	ev["code1"] = 0
 	ev["msgs1"], ev["names1"], ev["msgs2"], ev["names2"] = []interface{}{}, []interface{}{}, []interface{}{}, []interface{}{}
-	st, _ := guarded(10*time.Second, func() {
+	st, _ := guarded(30*time.Second, func() {
 		var s spec.Schema
 		_ = json.Unmarshal(schemaText, &s)
 		data, _ := decodeFloat(instText)
@@ -79,7 +79,7 @@ func errorsCase(idx int, schemaText, instText []byte, root string, reg strfmt.Re
 	if st != "" {
 		ev["o1"] = st
 	}
-	st, _ = guarded(10*time.Second, func() {
+	st, _ = guarded(30*time.Second, func() {
 		var s spec.Schema
 		_ = json.Unmarshal(schemaText, &s)
 		data, _ := decodeFloat(instText)
@@ -97,7 +97,7 @@ func errorsCase(idx int, schemaText, instText []byte, root string, reg strfmt.Re
 		ev["o2"] = st
 	}
 	// the same validation with an empty root, to compare message sets with the one-shot entry point
-	st, _ = guarded(10*time.Second, func() {
+	st, _ = guarded(30*time.Second, func() {
 		var s spec.Schema
 		_ = json.Unmarshal(schemaText, &s)
 		data, _ := decodeFloat(instText)
